@@ -343,7 +343,7 @@ class TrV(TrM):
             if lam is None: raise NotImplementedError('call of a function object')
             e = single_return(lam)
             if e is None: raise NotImplementedError('lambda with statements')
-            return self.substitute(lam, self.int_args(args[1:]), None, e, as_cond)
+            return self.substitute(self.unit, lam, self.int_args(args[1:]), None, e, as_cond)
         raise NotImplementedError('operator call ' + op)
 
     # ---------- membership: std::find(A.begin(), A.end(), v) ==/!= A.end() ----------
